@@ -185,5 +185,78 @@ func init() {
 			}
 		}
 		runCases(col, theDriver, cs)
+		// the same through the real Stream(): the malformed packet arrives over TCP, Stream must return an error
+		// without delivering a partial transaction, and the next attempt must ask for the last accepted boundary
+		m := sharedMaster()
+		nl2 := 10
+		if tier == "thorough" {
+			nl2 = 200
+		}
+		for i := 0; i < nl2; i++ {
+			h := genHistory(r, o, allCfgs[i%len(allCfgs)])
+			ans, err := theDriver.Ask(h.line(posStr(firstFile, 4)))
+			if err != nil {
+				continue
+			}
+			f0 := fields(ans)
+			packets := splitPackets(f0["packets"])
+			full := strings.Split(f0["spec"], "&")
+			if f0["spec"] == "" {
+				full = nil
+			}
+			bset := map[string]bool{}
+			for _, b := range strings.Split(f0["boundaries"], ",") {
+				bset[b] = true
+			}
+			idx := r.Intn(len(packets) + 1)
+			var bad []byte
+			if r.Bool() && len(packets) > 0 {
+				src := packets[r.Intn(len(packets))]
+				bad = append([]byte(nil), src[:r.Intn(len(src))]...)
+			} else {
+				bad = r.Bytes(r.Intn(30))
+			}
+			if len(bad) >= 19 && int(uint32(bad[9])|uint32(bad[10])<<8|uint32(bad[11])<<16|uint32(bad[12])<<24) == len(bad) {
+				continue
+			}
+			s, mp := newStreamer(m, h, 17, firstFile, 4)
+			opts := defaultOpts()
+			opts.script = func(pk [][]byte) []action {
+				var sc []action
+				for j, p := range pk {
+					if j == idx {
+						sc = append(sc, action{kind: "send", data: bad})
+					}
+					sc = append(sc, action{kind: "send", data: p})
+				}
+				if idx >= len(pk) {
+					sc = append(sc, action{kind: "send", data: bad})
+				}
+				return append(sc, action{kind: "eof"})
+			}
+			res := runAttempt(s, m, h, mp, opts)
+			ok, note, key := true, "", ""
+			switch {
+			case strings.HasPrefix(res.streamRet, "panic"):
+				ok, note, key = false, "a malformed packet made Stream panic: "+clip(res.streamRet, 120), "panic-on-malformed"
+			case !strings.HasPrefix(res.streamRet, "err:"):
+				ok, note, key = false, "a malformed packet did not end Stream with an error ("+clip(res.streamRet, 60)+")", "malformed-accepted"
+			case len(res.calls) > len(full) || strings.Join(res.calls, "&") != strings.Join(full[:len(res.calls)], "&"):
+				ok, note, key = false, "deliveries before the malformed packet are not a prefix of the committed transactions", "partial-delivery"
+			default:
+				res2 := runAttempt(s, m, h, mp, defaultOpts())
+				if len(res2.dumps) != 1 {
+					ok, note, key = false, "the next attempt sent no dump request", "no-dump"
+				} else {
+					req := posStr(res2.dumps[0].file, int64(res2.dumps[0].pos))
+					ans2, _ := theDriver.Ask(h.line(req))
+					rest := strings.Join(full[len(res.calls):], "&")
+					if !bset[req] || stripFirstNow(fields(ans2)["spec"]) != stripFirstNow(rest) {
+						ok, note, key = false, "after a malformed packet the next dump request ("+req+") is not the last accepted commit boundary", "resume-pos-after-malformed"
+					}
+				}
+			}
+			col.AddScenario("stream-inject-malformed", fmt.Sprintf("inject=%d:%s # %s", idx, hx(bad), clip(h.line(posStr(firstFile, 4)), 300)), true, ok, true, note, key, clip(res.streamRet, 80), "")
+		}
 	}
 }
